@@ -25,6 +25,7 @@ From SK Require Import lib.LGraph model.C01_Model model.C02_Model model.C09_Mode
   proof.C09_Canon proof.C09_Valid proof.C09_Balance proof.C09_Main proof.C09_Indep proof.C09_Indep2 proof.C09_ValidRC proof.C09_WL proof.C09_NautyRigid proof.C09_Nauty.
 From SK Require Import lib.StrJoin model.C09_Strings model.C09_State proof.C09_Str proof.C09_Expand proof.C09_Graph proof.C09_Backends proof.C09_State proof.C09_StrFit.
 From SK Require Import model.C09_Helpers proof.C09_Helpers model.C09_Records proof.C09_Records proof.C09_Top proof.C09_Opt.
+From SK Require Import model.C01_String model.C09_Normalize proof.C09_Normalize.
 From SK Require model.C08_Model proof.C08_Spec model.C01_Opts.
 Import ListNotations.
 
@@ -531,6 +532,30 @@ Theorem C09_remap_graph_full_spec : forall (H : mgraph) (pairs : list (N * N)),
      remap_graph H pairs = Some g /\ forall old, In old (map fst (remap_mapping pairs)) -> In old (node_ids H)).
 Proof. exact remap_graph_full_spec. Qed.
 Print Assumptions C09_remap_graph_full_spec.
+
+(** NormalizeAAM.fit, graph-level core (model/C09_Normalize.v; the graphs and the hydrogen list are captured INSIDE the call on
+    every `normcore` case; implicit_hydrogen is the model of property C01): both sides are treated with the same list - the
+    atom maps of the hydrogens of the reaction centre; those hydrogens stay explicit atoms, any other hydrogen disappears
+    exactly when it has a non-hydrogen neighbour, and every other atom keeps its element, aromaticity, charge, neighbours,
+    atom_map and its TOTAL number of hydrogens (hcount + explicit hydrogen neighbours) *)
+Theorem C09_normalize_core_spec : forall G H : mgraph, wf G -> wf H ->
+  fst (normalize_core G H) = implicit_hydrogen G (list_hydrogen G H) /\
+  snd (normalize_core G H) = implicit_hydrogen H (list_hydrogen G H) /\
+  (forall z, In z (list_hydrogen G H) <->
+     exists n a, In (n, a) (gnodes (get_rc (its_construct G H))) /\ i_el a = EL_H /\ z = i_amap a).
+Proof. exact normalize_core_spec. Qed.
+Print Assumptions C09_normalize_core_spec.
+
+Theorem C09_normalize_side_spec : forall (X : mgraph) (lh : list Z), wf X ->
+  (forall h a, label X h = Some a -> is_H a = true -> memZ (g_amap a) lh = true -> label (implicit_hydrogen X lh) h = Some a) /\
+  (forall h a, label X h = Some a -> is_H a = true -> memZ (g_amap a) lh = false ->
+     label (implicit_hydrogen X lh) h = if has_heavy X h then None else Some a) /\
+  (forall n a, label X n = Some a -> is_H a = false ->
+     exists a', label (implicit_hydrogen X lh) n = Some a' /\
+       (g_hc a' + count_h (implicit_hydrogen X lh) n = g_hc a + count_h X n)%Z /\
+       g_el a' = g_el a /\ g_arom a' = g_arom a /\ g_ch a' = g_ch a /\ g_nb a' = g_nb a /\ g_amap a' = g_amap a).
+Proof. exact normalize_side_spec. Qed.
+Print Assumptions C09_normalize_side_spec.
 
 (** NormalizeAAM helpers (compared on every `subgraph` case) *)
 Theorem C09_reset_indices_spec : forall G : mgraph, wf G ->
